@@ -218,19 +218,30 @@ func H_C14_withBody() {
 	}
 }
 
-// H_C14_sequences: 2 (quick) / 3 (thorough) goroutines with two calls each.
+// H_C14_sequences: 2 goroutines with two calls each.
 func H_C14_sequences() {
-	g, p := 2, 1
+	p := 1
 	alphabet := []uint8{cErrorf, cFailed, cContext, cCleanup}
 	if thorough() {
-		g, p = 3, 2
+		p = 2
+		alphabet = c14Alphabet
 	}
 	concurrent(p)
-	progs := concProgs("g", g, 2, alphabet)
-	for gi := 1; gi < g; gi++ {
-		assume(progs[gi-1][0] <= progs[gi][0])
-	}
+	progs := concProgs("g", 2, 2, alphabet)
+	assume(progs[0][0] <= progs[1][0])
 	for r := concRounds(); r > 0; r-- {
 		concScenario(progs, 0, true, cOpCount)
+	}
+}
+
+// H_C14_three: three goroutines with one call each.
+func H_C14_three() {
+	concurrent(2)
+	progs := concProgs("g", 3, 1, c14Alphabet)
+	assume(progs[0][0] <= progs[1][0])
+	assume(progs[1][0] <= progs[2][0])
+	joined := nondetBool("joined")
+	for r := concRounds(); r > 0; r-- {
+		concScenario(progs, 0, joined, cOpCount)
 	}
 }
